@@ -5,8 +5,8 @@ from . import extract as X
 from corpus import instances as I
 
 VERIF = X.VERIF
-EVID = os.path.join(VERIF, 'evidence')
-REPLAY = os.path.join(VERIF, 'replays')
+EVID = os.environ.get('VERIF_EVIDENCE_DIR') or os.path.join(VERIF, 'evidence')
+REPLAY = os.environ.get('VERIF_REPLAY_DIR') or os.path.join(VERIF, 'replays')
 
 def D_HOSTILE():
     from corpus import decls
